@@ -8,7 +8,23 @@ import operator
 from . import error
 import datetime
 import time
-from dateutil.parser import parse as to_date
+import dateutil.parser
+
+
+class FixedCentury(dateutil.parser.parserinfo):
+    """
+    dateutil reads a two-digit year within fifty years of the year in which the
+    parser object was made: "3/15/80" was 1980 in a process started in 2026 and 2080
+    in one started in 2031. The window is fixed here: 50-99 are 1950-1999, 00-49
+    are 2000-2049.
+    """
+    def __init__(self, *args, **kwargs):
+        dateutil.parser.parserinfo.__init__(self, *args, **kwargs)
+        self._year = 2000
+        self._century = 2000
+
+
+to_date = dateutil.parser.parser(FixedCentury()).parse
 
 DEFAULT = lambda: 0
 
